@@ -1,10 +1,10 @@
 package chk
 
 import (
-	"regexp"
-	"go/types"
 	"fmt"
 	"go/token"
+	"go/types"
+	"regexp"
 	"sort"
 	"strings"
 
@@ -14,7 +14,7 @@ import (
 // Rules added after the second round of independently seeded changes.
 func round2Rules() []*Rule {
 	return []*Rule{
-		{ID: "ERR-4", Props: []string{"C12", "C04", "C19"}, Min: 150,
+		{ID: "ERR-4", Props: []string{"C12", "C04", "C19", "C18"}, Min: 150,
 			Doc: "between a call and the test of its error no return can slip through: every path from an error-producing call to a return tests that error, returns it, or stores it first",
 			Run: runErr4},
 		{ID: "ADDINDEX", Props: []string{"C10", "C03"}, Min: 6,
@@ -238,6 +238,14 @@ func runAddIndex(c *Ctx) {
 		return
 	}
 	recv, pk, name, cols := "p:"+fn.Params[0].Name(), "p:"+fn.Params[1].Name(), "p:"+fn.Params[2].Name(), "p:"+fn.Params[3].Name()
+	nDupPK, nDupIdx, nNew := 0, 0, 0
+	defer func() {
+		// the table has three kinds of row; a kind with no path means the comparison that selects it is not made or
+		// its answer not looked at
+		c.Check(nDupPK > 0, "addIndex:row:key", fn.Pos(), "addIndex has %d paths on which the columns are found to be the WITHOUT ROWID key (a UNIQUE over the key's columns has no index of its own)", nDupPK)
+		c.Check(nDupIdx > 0, "addIndex:row:shared", fn.Pos(), "addIndex has %d paths on which an equivalent earlier index is found (constraints over the same key share one index)", nDupIdx)
+		c.Check(nNew > 0, "addIndex:row:new", fn.Pos(), "addIndex has %d paths on which a new index is added", nNew)
+	}()
 	for _, lp := range paths {
 		if lp.Exit == nil {
 			continue
@@ -277,10 +285,12 @@ func runAddIndex(c *Ctx) {
 		var problems []string
 		switch {
 		case dupPK:
+			nDupPK++
 			if len(pkStores) > 0 || appended || ret != "const:false" {
 				problems = append(problems, "columns equal the WITHOUT ROWID key: nothing may change and false must be returned")
 			}
 		case dupIdx != "":
+			nDupIdx++
 			if appended || ret != "const:false" {
 				problems = append(problems, "an equivalent index exists: nothing may be added and false must be returned")
 			}
@@ -291,6 +301,7 @@ func runAddIndex(c *Ctx) {
 				problems = append(problems, "PrimaryKey changed by a constraint that is not the primary key")
 			}
 		default:
+			nNew++
 			if !appended || ret != "const:true" {
 				problems = append(problems, "a new index must be added and true returned")
 			}
@@ -434,7 +445,9 @@ func sameKeyComparator(p *Program, fn *ssa.Function) string {
 		seen[f] = true
 		fns = append(fns, f)
 		for _, cs := range callsIn(f) {
-			if cal := cs.Common().StaticCallee(); cal != nil && p.InModule(cal) {
+			// only helpers that compare two strings belong to the comparison; a function that merely CALLS a
+			// comparator over column lists (an "is it in this list" wrapper) is not one itself
+			if cal := cs.Common().StaticCallee(); cal != nil && p.InModule(cal) && allStringParams(cal) {
 				visit(cal)
 			}
 		}
@@ -485,6 +498,15 @@ func sameKeyComparator(p *Program, fn *ssa.Function) string {
 		return "— the number of columns is not compared"
 	}
 	return ""
+}
+
+func allStringParams(f *ssa.Function) bool {
+	for _, pa := range f.Params {
+		if b, ok := pa.Type().Underlying().(*types.Basic); !ok || b.Info()&types.IsString == 0 {
+			return false
+		}
+	}
+	return len(f.Params) > 0
 }
 
 func runPKCols(c *Ctx) {
@@ -739,7 +761,14 @@ func runSQLPass(c *Ctx) {
 		c.Check(ok1 && ok2, "makeColumnDef name/type", fn.Pos(), "a column definition keeps the name and type that were written")
 		// … and the collation name of its COLLATE constraint, unchanged
 		nColl, okColl := 0, true
-		for _, in := range instrs(fn) {
+		// (the constraint loop may live in a freshly extracted helper)
+		collIns := instrs(fn)
+		for _, cs := range callsIn(fn) {
+			if cal := cs.Common().StaticCallee(); cal != nil && inlinable != nil && inlinable(cal) {
+				collIns = append(collIns, instrs(cal)...)
+			}
+		}
+		for _, in := range collIns {
 			if s, ok := in.(*ssa.Store); ok && fieldName(s.Addr) == "Collate" {
 				nColl++
 				v := s.Val
